@@ -500,7 +500,9 @@ def execute(sc: dict) -> dict:
 
 LEVEL_TEXT = (
     "Seeded search over the instant of shutdown()/close() relative to connect attempts, back-off timers, handshake steps, "
-    "pending messages, heartbeats and fault handling, followed by >= 1000 idle simulated seconds and an optional re-init: the "
+    "pending messages, heartbeats and fault handling - including instants placed at run time a few loop passes around the client's own "
+    "timers (heartbeat deadline and tick, retry delays) and just before an in-flight reconnection completes - followed by >= 1000 "
+    "idle simulated seconds and an optional re-init: the "
     "simulated network shows every later connect or write, the virtual loop lists every task and timer left, and the re-init is "
     "checked against a reference model of the (changed) installation. Sampled evidence."
 )
